@@ -6,7 +6,7 @@ import os
 VERIF = os.path.dirname(os.path.dirname(os.path.abspath(__file__)))
 
 COMMON_NOTE = ("Trusted: Coq 8.16.1 kernel; no axioms (Print Assumptions output is recorded per theorem in the "
-               "evidence); hand-written Gallina model tied to /repo by regenerated tables (harness/gen_tables.py), by "
+               "evidence; the thorough tier re-checks the compiled theorems with coqchk -o and records its axiom summary); hand-written Gallina model tied to /repo by regenerated tables (harness/gen_tables.py), by "
                "re-translation of yarl/_path.py from the source with a proof of equality to the model (harness/gen_model.py, C15) "
                "and by a differential correspondence check of the extracted model (ExtrOcamlBasic only) against "
                "both quoting backends built from the working tree; extracted theorem predicates applied to the "
